@@ -347,6 +347,11 @@ func (m *Message) GetClassAdRaw(ctx context.Context) (string, error) {
 func (m *Message) GetClassAdRawBody(ctx context.Context, numExprs int) (string, error) {
 	var b strings.Builder
 	for i := 0; i < numExprs; i++ {
+		// Every expression occupies at least one byte on the wire; running past the
+		// end of the message means the count was bogus, not that empty strings follow.
+		if m.atEndOfMessage() {
+			return "", fmt.Errorf("ClassAd truncated: expected %d expressions, message ended after %d", numExprs, i)
+		}
 		exprStr, err := m.GetString(ctx)
 		if err != nil {
 			return "", fmt.Errorf("failed to read expression %d (expected %d): %w", i, numExprs, err)
@@ -443,6 +448,10 @@ func getClassAdFromMessageWithMaxSize(m *Message, maxSize int, ctx context.Conte
 
 	// Parse each expression string
 	for i := 0; i < int(numExprs); i++ {
+		// A count that is not backed by data is an error, not a run of empty strings.
+		if m.atEndOfMessage() {
+			return nil, fmt.Errorf("ClassAd truncated: expected %d expressions, message ended after %d", numExprs, i)
+		}
 		var exprStr string
 		if maxSize > 0 {
 			// Calculate remaining budget for this string
